@@ -967,6 +967,8 @@ def normalise_module(tree: ast.Module):
             again |= ForwardTemps().run(fn)
         ast.fix_missing_locations(tree)
         again |= DispatchSplit(CLASS_NAMES).run(tree)
+        # closures that were values of a dispatch table are direct calls after unrolling and propagation
+        again |= bool(inline_closures(tree))
         if not again:
             break
         ast.fix_missing_locations(tree)
@@ -981,7 +983,7 @@ def normalise_module(tree: ast.Module):
 # ------------------------------------------------------------------------------------------- N5 local copy propagation
 PURE_CALLS = {"len", "any", "all", "isinstance", "range", "enumerate", "min", "max", "sum", "int", "abs", "tuple", "hasattr", "bool", "str", "float",
               "np.dtype", "numpy.dtype", "zip", "sorted", "reversed", "type", "slice", "nullcontext", "contextlib.nullcontext", "frozenset", "set", "list",
-              "partial", "functools.partial", "attrgetter", "operator.attrgetter", "itemgetter", "operator.itemgetter"}
+              "partial", "functools.partial", "attrgetter", "operator.attrgetter", "itemgetter", "operator.itemgetter", "product", "itertools.product"}
 
 
 # read-only AND not raising on well-typed receivers (a call that can raise is not moved: its handler may differ at the use site)
@@ -1124,6 +1126,23 @@ def _in_pure_consumer_only(e):
         return all(ok(c, False) for c in ast.iter_child_nodes(n))
 
     return ok(e, False)
+
+
+def _dispatch_chain(e):
+    """`A._build if c1 else B._build if c2 else None`: a selection among classes / their methods - left as a binding for
+    DispatchSplit, which turns it into one branch per class (propagating it would bury the selection in every use)"""
+    if not isinstance(e, ast.IfExp):
+        return False
+    leaves = []
+    while isinstance(e, ast.IfExp):
+        leaves.append(e.body)
+        e = e.orelse
+    leaves.append(e)
+
+    def cls_ref(x):
+        return (isinstance(x, ast.Name) and x.id in CLASS_NAMES) or (isinstance(x, ast.Attribute) and isinstance(x.value, ast.Name) and x.value.id in CLASS_NAMES
+                                                                      and not _enum_member(x))
+    return any(cls_ref(x) for x in leaves) and all(cls_ref(x) or (isinstance(x, ast.Constant) and x.value is None) for x in leaves)
 
 
 class BranchLocalRename:
@@ -1278,7 +1297,7 @@ class CopyProp:
                     and (not any(isinstance(x, (ast.List, ast.Dict, ast.Set, ast.ListComp, ast.DictComp, ast.SetComp, ast.GeneratorExp))
                                  or (isinstance(x, ast.Call) and isinstance(x.func, ast.Attribute) and x.func.attr in FRESH_METHODS) for x in ast.walk(st.value))
                          or self.loads.get(st.targets[0].id) == 1 or _in_pure_consumer_only(st.value) or st.targets[0].id in self.consumed_only) \
-                    and True:
+                    and not _dispatch_chain(st.value):
                 name = st.targets[0].id
                 paths, names = _paths_read(st.value)
                 # the names read must themselves be stable from here on
@@ -1778,6 +1797,53 @@ class Canon(ast.NodeTransformer):
                         x.ctx = ast.Store()
                 test = ast.Call(func=ast.Name(id="any", ctx=ast.Load()), args=[gen], keywords=[])
                 return ast.copy_location(ast.If(test=test, body=[rs], orelse=[]), node)
+        # for p in zip(A, B): .. f(*p) .. p[0] ..   ==>   for p_0, p_1 in zip(A, B): .. f(p_0, p_1) .. p_0 ..
+        if isinstance(node.target, ast.Name) and isinstance(node.iter, ast.Call) and isinstance(node.iter.func, ast.Name) and node.iter.func.id in ("zip", "enumerate") \
+                and not node.iter.keywords and not any(isinstance(a, ast.Starred) for a in node.iter.args) \
+                and (len(node.iter.args) >= 2 if node.iter.func.id == "zip" else len(node.iter.args) == 1):
+            k = len(node.iter.args) if node.iter.func.id == "zip" else 2
+            v = node.target.id
+            uses = [n for s_ in node.body + node.orelse for n in ast.walk(s_) if isinstance(n, ast.Name) and n.id == v]
+            wrapped = set()
+            okk = True
+            for s_ in node.body + node.orelse:
+                for n in ast.walk(s_):
+                    if isinstance(n, ast.Starred) and isinstance(n.value, ast.Name) and n.value.id == v and isinstance(n.ctx, ast.Load):
+                        wrapped.add(id(n.value))
+                    if isinstance(n, ast.Subscript) and isinstance(n.value, ast.Name) and n.value.id == v and isinstance(n.ctx, ast.Load) \
+                            and isinstance(n.slice, ast.Constant) and isinstance(n.slice.value, int) and 0 <= n.slice.value < k:
+                        wrapped.add(id(n.value))
+            starred_ok = all(not (isinstance(n, ast.Starred) and isinstance(n.value, ast.Name) and n.value.id == v) or True for s_ in node.body for n in ast.walk(s_))
+            if uses and all(id(u_) in wrapped for u_ in uses) and starred_ok:
+                names = [f"{v}_{i}" for i in range(k)]
+                taken = {n.id for n in ast.walk(node) if isinstance(n, ast.Name)}
+                if not (set(names) & taken):
+                    class Z(ast.NodeTransformer):
+                        def visit_Call(self, c):
+                            self.generic_visit(c)
+                            new_args = []
+                            for a in c.args:
+                                if isinstance(a, ast.Starred) and isinstance(a.value, ast.Name) and a.value.id == v:
+                                    new_args += [ast.Name(id=nm, ctx=ast.Load()) for nm in names]
+                                else:
+                                    new_args.append(a)
+                            c.args = new_args
+                            return c
+
+                        def visit_Subscript(self, n):
+                            self.generic_visit(n)
+                            if isinstance(n.value, ast.Name) and n.value.id == v and isinstance(n.slice, ast.Constant) and isinstance(n.ctx, ast.Load):
+                                return ast.copy_location(ast.Name(id=names[n.slice.value], ctx=ast.Load()), n)
+                            return n
+
+                    # a starred use outside a call argument list (e.g. [*p]) is left alone: refuse then
+                    stars = [n for s_ in node.body + node.orelse for n in ast.walk(s_) if isinstance(n, ast.Starred) and isinstance(n.value, ast.Name) and n.value.id == v]
+                    in_calls = {id(a) for s_ in node.body + node.orelse for c in ast.walk(s_) if isinstance(c, ast.Call) for a in c.args}
+                    if all(id(st_) in in_calls for st_ in stars):
+                        node.body = [Z().visit(s_) for s_ in node.body]
+                        node.orelse = [Z().visit(s_) for s_ in node.orelse]
+                        node.target = ast.copy_location(ast.Tuple(elts=[ast.Name(id=nm, ctx=ast.Store()) for nm in names], ctx=ast.Store()), node.target)
+                        ast.fix_missing_locations(node)
         # for v in [E for x in IT if c]: body   ==>   for x in IT: if c: v = E; body        (E free of impure calls)
         itc = node.iter
         if isinstance(itc, (ast.ListComp, ast.GeneratorExp)) and len(itc.generators) > 1 and not node.orelse and _pure_expr(itc.elt) \
@@ -2086,8 +2152,179 @@ def prune_dead(tree):
                     setattr(n, fld, out)
 
 
-def normalise_functions(tree):
+# ------------------------------------------------------------------------------------------- N9 collect-then-consume
+class CollectionReplay:
+    """X = []
+       for ..: (.. if c: .. X.append(e) ..)          the loop also does other things
+       S*
+       for p in X: BODY                               the only other use of X
+    ->  the first loop without the append, S*, and for the second loop the SKELETON of the first (its for / if statements and
+    pure local bindings on the way to the append) with `p = e; BODY` in the place of the append.
+    Sound when everything in the skeleton is pure, the dropped statements of the first loop and S* cannot change what the
+    skeleton reads (same may-kill test as copy propagation), and BODY itself cannot either (it runs between evaluations)."""
+
+    def run(self, fn):
+        changed = False
+        for node in ast.walk(fn):
+            for fld in ("body", "orelse", "finalbody"):
+                blk = getattr(node, fld, None)
+                if isinstance(blk, list) and blk and isinstance(blk[0], ast.stmt):
+                    new = self._block(fn, blk)
+                    if new is not None:
+                        setattr(node, fld, new)
+                        changed = True
+        return changed
+
+    def _block(self, fn, blk):
+        for i, st in enumerate(blk):
+            if not (isinstance(st, ast.Assign) and len(st.targets) == 1 and isinstance(st.targets[0], ast.Name) and isinstance(st.value, ast.List) and not st.value.elts):
+                continue
+            X = st.targets[0].id
+            uses = [n for n in ast.walk(fn) if isinstance(n, ast.Name) and n.id == X]
+            if len(uses) != 3:
+                continue
+            # producer: the next for statement; consumer: a later `for p in X`
+            prod = next((j for j in range(i + 1, len(blk)) if isinstance(blk[j], ast.For)), None)
+            if prod is None or any(isinstance(n, ast.Name) and n.id == X for k in range(i + 1, prod) for n in ast.walk(blk[k])):
+                continue
+            cons = next((j for j in range(prod + 1, len(blk)) if isinstance(blk[j], ast.For) and isinstance(blk[j].iter, ast.Name) and blk[j].iter.id == X), None)
+            if cons is None or blk[cons].orelse or not isinstance(blk[cons].target, (ast.Name, ast.Tuple)):
+                continue
+            L1, L2 = blk[prod], blk[cons]
+            apps = [n for n in ast.walk(L1) if isinstance(n, ast.Expr) and isinstance(n.value, ast.Call) and isinstance(n.value.func, ast.Attribute)
+                    and n.value.func.attr == "append" and isinstance(n.value.func.value, ast.Name) and n.value.func.value.id == X and len(n.value.args) == 1]
+            if len(apps) != 1:
+                continue
+            app = apps[0]
+            e = app.value.args[0]
+            if not _pure_expr(e):
+                continue
+            if any(isinstance(n, (ast.Break, ast.Continue, ast.Return, ast.Raise, ast.Try, ast.While, ast.With)) for n in ast.walk(L1)):
+                continue
+            if any(isinstance(n, (ast.Break, ast.Continue)) for n in ast.walk(L2)):
+                continue
+            dropped = []
+
+            def skel(stmts):
+                """(copy of the statements leading to the append, found?)"""
+                out = []
+                found = False
+                for k, s_ in enumerate(stmts):
+                    if s_ is app:
+                        out.append("HOLE")
+                        found = True
+                        dropped.extend(stmts[k + 1:])
+                        break
+                    has = any(n is app for n in ast.walk(s_))
+                    if isinstance(s_, ast.For) and has:
+                        if s_.orelse or not _pure_expr(s_.iter):
+                            return None, False
+                        inner, ok = skel(s_.body)
+                        if not ok:
+                            return None, False
+                        out.append(ast.For(target=copy.deepcopy(s_.target), iter=copy.deepcopy(s_.iter), body=inner, orelse=[]))
+                        found = True
+                        dropped.extend(stmts[k + 1:])
+                        break
+                    if isinstance(s_, ast.If) and has:
+                        if not _pure_expr(s_.test):
+                            return None, False
+                        in_body = any(n is app for b in s_.body for n in ast.walk(b))
+                        inner, ok = skel(s_.body if in_body else s_.orelse)
+                        if not ok:
+                            return None, False
+                        dropped.extend(s_.orelse if in_body else s_.body)
+                        test = copy.deepcopy(s_.test) if in_body else ast.UnaryOp(op=ast.Not(), operand=copy.deepcopy(s_.test))
+                        out.append(ast.If(test=test, body=inner, orelse=[]))
+                        found = True
+                        dropped.extend(stmts[k + 1:])
+                        break
+                    if isinstance(s_, ast.Assign) and len(s_.targets) == 1 and isinstance(s_.targets[0], ast.Name) and _pure_expr(s_.value):
+                        out.append(copy.deepcopy(s_))
+                        continue
+                    dropped.append(s_)
+                return out, found
+
+            inner, ok = skel(L1.body)
+            if not ok or not _pure_expr(L1.iter) or L1.orelse:
+                continue
+            sk = ast.For(target=copy.deepcopy(L1.target), iter=copy.deepcopy(L1.iter), body=inner, orelse=[])
+            # what the skeleton reads
+            probe = ast.Module(body=[sk], type_ignores=[])
+            paths, names = set(), set()
+            bound = set()
+            for n in ast.walk(probe):
+                if isinstance(n, ast.expr) and not isinstance(n, ast.Name):
+                    pass
+            for n in ast.walk(probe):
+                if isinstance(n, (ast.For, ast.If, ast.Assign)):
+                    for x in ([n.iter] if isinstance(n, ast.For) else [n.test] if isinstance(n, ast.If) else [n.value]):
+                        p_, n_ = _paths_read(x)
+                        paths |= p_
+                        names |= n_
+                if isinstance(n, ast.For):
+                    bound |= {t.id for t in ast.walk(n.target) if isinstance(t, ast.Name)}
+                if isinstance(n, ast.Assign):
+                    bound |= {t.id for t in ast.walk(n.targets[0]) if isinstance(t, ast.Name)}
+            p_, n_ = _paths_read(e)
+            paths |= p_
+            names |= n_
+            attrs = {q.rsplit(".", 1)[1] for q in paths if "." in q}
+            # names bound by the skeleton are re-bound by the replay; the others must survive the dropped statements, S* and BODY
+            free = names - bound
+            stored_elsewhere = [s_ for s_ in dropped + blk[prod + 1:cons] + list(L2.body)]
+            if any(_kills(s_, paths, free | bound, attrs) for s_ in stored_elsewhere):
+                continue
+            # the replay's own names must not be live in BODY / after (they are re-bound): refuse when BODY reads or writes them
+            body_names = {n.id for b in L2.body for n in ast.walk(b) if isinstance(n, ast.Name)}
+            tnames = {t.id for t in ast.walk(L2.target) if isinstance(t, ast.Name)}
+            if (bound - tnames) & body_names:
+                continue
+            later = {n.id for s_ in blk[cons + 1:] for n in ast.walk(s_) if isinstance(n, ast.Name) and isinstance(n.ctx, ast.Load)}
+            if bound & later:
+                continue
+            hole = [ast.Assign(targets=[copy.deepcopy(L2.target)], value=copy.deepcopy(e))] + list(L2.body)
+            if isinstance(L2.target, ast.Name) and isinstance(e, ast.Name) and e.id == L2.target.id:
+                hole = list(L2.body)
+
+            def fill(stmts):
+                out = []
+                for s_ in stmts:
+                    if s_ == "HOLE":
+                        out += hole
+                    else:
+                        if isinstance(s_, (ast.For, ast.If)):
+                            s_.body = fill(s_.body)
+                        out.append(s_)
+                return out
+
+            sk.body = fill(sk.body)
+
+            class Drop(ast.NodeTransformer):
+                def visit_Expr(self, node):
+                    return None if node is app else node
+
+            Drop().visit(L1)
+            for n in ast.walk(L1):
+                for fld in ("body", "orelse"):
+                    if isinstance(getattr(n, fld, None), list) and fld == "body" and not n.body:
+                        n.body = [ast.Pass()]
+            new = blk[:i] + blk[i + 1:cons] + [ast.copy_location(sk, L2)] + blk[cons + 1:]
+            for n in ast.walk(sk):
+                if not hasattr(n, "lineno"):
+                    ast.copy_location(n, L2)
+            return new
+        return None
+
+
+def normalise_functions(tree, _depth=0):
     prune_dead(tree)
+    for node in ast.walk(tree):
+        if isinstance(node, ast.FunctionDef):
+            for _ in range(3):
+                if not CollectionReplay().run(node):
+                    break
+            ast.fix_missing_locations(node)
     AppendLoops().visit(tree)
     Canon().visit(tree)
     n = 0
@@ -2101,6 +2338,11 @@ def normalise_functions(tree):
                 n += 1
     from .normalize2 import Desugar
     ast.fix_missing_locations(tree)
+    before = ast.dump(tree)
     Desugar().visit(tree)   # forms that only appear once values have been propagated: partial(f, a)(b), attrgetter("x")(e), ...
     Canon().visit(tree)
+    if _depth < 2 and ast.dump(tree) != before:
+        # the desugared forms can introduce bindings of their own (`cell = (i, j)` of a product loop): propagate those too
+        ast.fix_missing_locations(tree)
+        n += normalise_functions(tree, _depth + 1)
     return n
